@@ -789,8 +789,49 @@ func vfMsgExec(alphabet []vfMsgOp) func(hist []int, last bool) vfXResult {
 			if isLast {
 				lastPre = pre
 			}
+			tables := []string{"topics", "subs", "messages", "dellog", "topictags"}
+			var preDump string
+			calls0 := 0
+			if isLast {
+				preDump = t.w.db.DumpTables(true, tables...)
+				calls0 = t.w.db.Calls()
+				if vfXFault.K > 0 {
+					t.w.db.FailAt(vfXFault.K, vfErrInjectedStore)
+				}
+			}
 			so := t.msgApply(op, n)
 			post := t.snap()
+			if isLast {
+				t.w.db.ClearFaults()
+				res.NCalls = t.w.db.Calls() - calls0
+				res.FaultDump = t.w.db.DumpTables(true, tables...)
+				res.Code = so.Code
+				if vfXFault.K > 0 {
+					failed := "?"
+					for _, j := range t.w.db.Journal() {
+						if j.Seq == calls0+vfXFault.K {
+							failed = j.Name
+						}
+					}
+					kind := op.Kind + vfNoteKind(op)
+					if op.Kind == "del" {
+						kind = fmt.Sprintf("del-hard=%v", op.Hard)
+					}
+					if op.Kind == "note" || op.Kind == "reload" {
+						// notes are never answered; a failed mark update simply does not happen
+						if so.Code == 0 {
+							so.Code = 500
+						}
+					}
+					base := *vfXFault.Base
+					base.PostDump = base.FaultDump
+					res.Violations = append(res.Violations, vfFaultOracles(op.String(), kind, failed, vfXFault.K, so.Code, preDump, res.FaultDump, &base, post)...)
+					res.Violations = append(res.Violations, vfMsgFaultFollowUp(t, ref, pre, op, so, failed, kind)...)
+					final := t.snap()
+					res.Key = final.Key()
+					return res
+				}
+			}
 			if op.Kind == "sub" && so.Code/100 == 2 {
 				u := fmt.Sprintf("u%d", op.Actor)
 				if _, had := pre.live(u); !had {
@@ -842,6 +883,23 @@ func vfMsgExec(alphabet []vfMsgOp) func(hist []int, last bool) vfXResult {
 	}
 }
 
+// vfMsgFaultFollowUp: after a request during which one store call failed and which was answered with an
+// error, the clients must see exactly what they saw before (C08 "nor what clients subsequently see").
+func vfMsgFaultFollowUp(t *vfTW, ref *vfMsgRef, pre *vfTopicSnap, op vfMsgOp, so vfStepObs, failed, kind string) []vfXViolation {
+	if so.Code > 0 && so.Code < 400 {
+		return nil
+	}
+	st := t.snap()
+	// the model has not been advanced by the failed request: probes must still agree with it
+	pv, _ := vfMsgProbes(t, ref, pre, st, op, true)
+	var out []vfXViolation
+	for _, v := range pv {
+		v.Key = "C08:failed-request-visible:" + kind + "@" + failed + ":" + strings.SplitN(strings.TrimPrefix(v.Key, "C0"), ":", 3)[1]
+		out = append(out, v)
+	}
+	return out
+}
+
 func vfMsgsKey(t *vfTW) string {
 	var sb strings.Builder
 	for _, m := range t.w.db.Messages(t.grp) {
@@ -868,6 +926,13 @@ func init() {
 				}
 				return 3
 			}}
+		vfXModels[name+"-fault"] = &vfXModel{Name: name + "-fault", NumOps: len(a), OpName: func(i int) string { return a[i].String() },
+			Exec: vfMsgExec(a), MaxDepth: func(th bool) int {
+				if th {
+					return 2
+				}
+				return 1
+			}, FaultDepth: func(th bool) int { return 2 }}
 	}
 	_ = json.Marshal
 }
@@ -884,3 +949,5 @@ func TestVerifC04Msg(t *testing.T) { vfXSearch(t, "C04", "msg", vfMsgModelName()
 func TestVerifC09Msg(t *testing.T) { vfXSearch(t, "C09", "msg", vfMsgModelName()) }
 func TestVerifC02Msg(t *testing.T) { vfXSearch(t, "C02", "msg", vfMsgModelName()) }
 func TestVerifC08Msg(t *testing.T) { vfXSearch(t, "C08", "msg", vfMsgModelName()) }
+func TestVerifC08MsgFault(t *testing.T) { vfXSearch(t, "C08", "msg-fault", vfMsgModelName()+"-fault") }
+func TestVerifC13MsgFault(t *testing.T) { vfXSearch(t, "C13", "msg-fault", vfMsgModelName()+"-fault") }
